@@ -477,8 +477,12 @@ AfterExec(s, o) ==                        \* the rest of step() once execute ret
                       IN SetIntr(s0, Len(s0.acts))
             ELSE IF o.kind = "exception" THEN [CancelAct(s, s.intr) EXCEPT !.intr = 0]   \* except Exception: the step failed: EXCEPTED, interrupt action dropped
             ELSE s
-      gone == "F9" \in Fixes /\ s1.st \in Terminal      \* terminated (fail, callback) while the step was in flight
-      s1b == IF gone THEN SetIntr(s1, 0) ELSE s1
+      \* F16: the future was cancelled and its done-callback (try_killing) did not get to run yet: the kill is requested now
+      \*      (as written the step's own transition may find the cancelled future first: on_finish fails, deviation D9)
+      s1k == IF "F16" \in Fixes /\ s1.fut.st = "cancelled" /\ s1.killing = 0 /\ s1.st \notin Terminal
+             THEN Kill(s1, "Killed by future being cancelled").s ELSE s1
+      gone == "F9" \in Fixes /\ s1k.st \in Terminal      \* terminated (fail, callback) while the step was in flight
+      s1b == IF gone THEN SetIntr(s1k, 0) ELSE s1k
       nx == IF gone THEN NoState
             ELSE IF o.kind = "state" THEN o.next
             ELSE IF o.kind = "exception" THEN Excepted(o.exc) ELSE NoState
